@@ -100,6 +100,11 @@ def idUsed (c : C) : Option Name → Bool
   | some n => c.contains n
   | none => false
 
+/-- the requested name is itself a member of the basis (rejected: it would name two simplices) -/
+def idInBasis (bs : List Name) : Option Name → Bool
+  | some n => bs.contains n
+  | none => false
+
 def topName (c1 : C) (d : Nat) : Option Name → Name × C
   | some n => (n, c1)
   | none => newSimplex c1 d
@@ -108,6 +113,7 @@ def topName (c1 : C) (d : Nat) : Option Name → Name × C
 def addSimplexWithBasis' (c : C) (bs : List Name) (id : Option Name) : R Name :=
   -- validate before creating anything (D03)
   if idUsed c id then (.error .key, c) else
+  if idInBasis bs id then (.error .key, c) else
   if bs.any (fun b => c.contains b && c.orderOf? b != some 0) then (.error .value, c) else
   if (simplexWithBasis c bs).isSome then (.error .key, c) else
   match ensurePoints c bs with
